@@ -85,18 +85,12 @@ fn env_pull<I: ConcurrentIter>() {
 /// sequential order of the counter's modifications" needs every pull to be ONE read-modify-write. If this
 /// fails the property is not decided by this harness (inconclusive) unless a property-level assertion
 /// below fails too.
-fn one_rmw(n: usize) {
-    assert!(
-        hook::count() == 1,
-        "METHOD C01 C04 C09: a pull on a known-size source performs exactly one atomic access (basis of the single-RMW reduction and of the lock-freedom claim)"
-    );
+fn one_rmw(n: usize) -> bool {
+    if hook::count() != 1 {
+        return false;
+    }
     let e = hook::ev(0);
-    assert!(e.kind == K_FETCH_ADD, "METHOD C01 C04 C09: the single atomic access of a pull is a fetch_add");
-    assert!(e.operand == n, "METHOD C01 C03: the pull reserves exactly the requested number of positions");
-    assert!(
-        e.ord == O_ACQREL || e.ord == O_SEQCST || e.ord == O_RELEASE || e.ord == O_ACQUIRE || e.ord == O_RELAXED,
-        "harness: ordering code"
-    );
+    e.kind == K_FETCH_ADD && e.operand == n
 }
 
 /// `delivered[p]` counts how often position p was handed out by the operation under test.
@@ -113,8 +107,7 @@ fn mark(o: &mut Out, p: usize) {
 fn chunk_out<T, V: ExactSizeIterator<Item = T>, F: Fn(T) -> usize>(begin_idx: usize, mut vals: V, n: usize, len: usize, f: &F, o: &mut Out) {
     let announced = vals.len();
     assert!(announced >= 1, "C03 C16: empty chunk");
-    assert!(begin_idx < len, "C05 C01: chunk delivered although it starts at or past the end");
-    assert!(announced == n.min(len - begin_idx), "C03: chunk length must be min(n, remaining from begin_idx)");
+    // index fidelity first: whatever else is wrong, element k must be the source element at begin_idx + k
     let mut k = 0;
     while k < LEN && k < announced {
         match vals.next() {
@@ -127,6 +120,8 @@ fn chunk_out<T, V: ExactSizeIterator<Item = T>, F: Fn(T) -> usize>(begin_idx: us
         }
         k += 1;
     }
+    assert!(begin_idx < len, "C02 C05 C01: chunk delivered although its begin index is at or past the end");
+    assert!(announced == n.min(len - begin_idx), "C03: chunk length must be min(n, remaining from begin_idx)");
     assert!(vals.next().is_none(), "C03: chunk yielded more elements than announced");
 }
 
@@ -167,9 +162,11 @@ where
     }
     hook::reset();
     let mut is_pull = true;
+    // METHOD facts are asserted last so that they never hide a property-level violation
+    let mut method_ok = true;
     if on(I_NEXT) {
         let r = it.next();
-        one_rmw(1);
+        method_ok = one_rmw(1);
         match r {
             None => o.none = true,
             Some(v) => mark(&mut o, f(v)),
@@ -178,7 +175,7 @@ where
         kani::cover!(c > len, "W: counter already beyond the end");
     } else if on(I_NEXT_ID) {
         let r = it.next_id_and_value();
-        one_rmw(1);
+        method_ok = one_rmw(1);
         match r {
             None => o.none = true,
             Some(x) => {
@@ -189,7 +186,7 @@ where
         }
     } else if on(I_CHUNK) {
         let r = it.next_chunk(n);
-        one_rmw(n);
+        method_ok = one_rmw(n);
         match r {
             None => o.none = true,
             Some(ch) => chunk_out(ch.begin_idx, ch.values, n, len, &f, &mut o),
@@ -200,7 +197,7 @@ where
         let mut bi = it.buffered_iter(n);
         hook::reset();
         let r = bi.next();
-        one_rmw(n);
+        method_ok = one_rmw(n);
         match r {
             None => o.none = true,
             Some(ch) => chunk_out(ch.begin_idx, ch.values, n, len, &f, &mut o),
@@ -209,16 +206,13 @@ where
     } else if on(I_SKIP) {
         is_pull = false;
         it.skip_to_end();
-        assert!(
-            hook::count() == 1,
-            "METHOD C09 C06: skip_to_end is a single atomic access"
-        );
+        method_ok = hook::count() == 1;
         kani::cover!(c < len, "W: skipped before the end");
     } else if on(I_LEN) {
         is_pull = false;
         unsafe { VH_ENV = None };
         let l = it.try_get_len();
-        assert!(hook::count() == 1, "METHOD C09 C11: try_get_len is a single atomic access");
+        method_ok = hook::count() == 1;
         assert!(hook::ev(0).kind == K_LOAD, "C11: try_get_len must not modify the counter");
         let want = if c < len { len - c } else { 0 };
         assert!(l == Some(want), "C11: try_get_len must be max(len - counter, 0)");
@@ -262,6 +256,10 @@ where
         }
     }
     kani::cover!(unsafe { VH_IND_RAN } && is_pull && !o.none, "W: a foreign pull was interleaved with a delivering operation");
+    assert!(
+        method_ok,
+        "METHOD: the operation is not a single atomic read-modify-write (fetch_add of the request / one store / one load): the reduction of all interleavings to the counter's modification order, and the lock-freedom argument (C09), do not apply to this code - C01 C04 C09 are not decided by this harness"
+    );
     c
 }
 
